@@ -93,6 +93,8 @@ def main():
         del args[args.index("-j"):args.index("-j") + 2]
     if args and args[0] == "--recheck":
         ids = sorted(os.listdir(os.path.join(VERIF, "benign")))
+        if len(args) > 1:
+            ids = [i for i in ids if i in args[1:]]          # --recheck <id> ...: only these
     else:
         prop, wt = args[0], args[1]
         ids = []
